@@ -429,6 +429,7 @@ type gen struct {
 	allowRec bool
 	noURL    bool
 	allowRecFile bool
+	plainOnly bool
 }
 
 var fmtTexts = [][]string{
@@ -498,7 +499,7 @@ func (g *gen) body(f int, in *sFile, child *sFile, nparams int, depth int, n int
 			ns = append(ns, g.text(f))
 		case k < 5:
 			ns = append(ns, sNode{kind: 'S', c: plain, e: g.valExp(nparams)})
-		case k == 5 && f == fHTML && !g.noURL:
+		case k == 5 && f == fHTML && !g.noURL && !g.plainOnly:
 			// a URL attribute: texts and values only
 			q := []string{`"`, `'`, ``}[g.c.Rng.Intn(3)]
 			ctx := byte(7)
@@ -514,7 +515,7 @@ func (g *gen) body(f int, in *sFile, child *sFile, nparams int, depth int, n int
 				ns = append(ns, sNode{kind: 'S', c: ctx | 0x80, e: g.valExp(nparams)})
 			}
 			ns = append(ns, sNode{kind: 'T', txt: q + ">"})
-		case k == 6 && f == fHTML:
+		case k == 6 && f == fHTML && !g.plainOnly:
 			// other contexts of HTML
 			switch g.c.Rng.Intn(4) {
 			case 0:
@@ -592,7 +593,7 @@ func (g *gen) partialFormat(f int) int {
 	return f
 }
 
-func (g *gen) macro(f int, in *sFile, depth int) sMacro {
+func (g *gen) macro(f int, in *sFile, child *sFile, depth int) sMacro {
 	m := sMacro{name: g.nextName, fmt: f, nparams: g.c.Rng.Intn(3) % 2 * (1 + g.c.Rng.Intn(2))}
 	g.nextName++
 	if g.c.Rng.Intn(4) == 0 {
@@ -605,7 +606,12 @@ func (g *gen) macro(f int, in *sFile, depth int) sMacro {
 	if g.allowRec && g.c.Rng.Intn(5) == 0 {
 		m.rec = true
 	}
-	m.body = g.body(m.fmt, in, nil, m.nparams, depth, 1+g.c.Rng.Intn(3))
+	// in a macro whose explicit format differs from the file's, the lexer keeps script/style
+	// contexts after their end tags (reported to the lexer package): plain constructs only
+	saved := g.plainOnly
+	g.plainOnly = m.explicit && m.fmt != in.fmt
+	m.body = g.body(m.fmt, in, child, m.nparams, depth, 1+g.c.Rng.Intn(3))
+	g.plainOnly = saved
 	return m
 }
 
@@ -633,7 +639,7 @@ func (g *gen) newFile(f int, depth int, declOnly bool) *sFile {
 		nm = 1 + g.c.Rng.Intn(2)
 	}
 	for i := 0; i < nm; i++ {
-		sf.macros = append(sf.macros, g.macro(f, sf, depth))
+		sf.macros = append(sf.macros, g.macro(f, sf, nil, depth))
 	}
 	if !declOnly {
 		if g.allowRec && g.allowRecFile && g.c.Rng.Intn(6) == 0 {
@@ -656,7 +662,7 @@ func genFileSet(c *Ctx, allowRec bool) *fileSet {
 		child.extends = lay.path
 		nm := g.c.Rng.Intn(2)
 		for i := 0; i < nm; i++ {
-			lay.macros = append(lay.macros, g.macro(f, lay, 1))
+			lay.macros = append(lay.macros, g.macro(f, lay, child, 1))
 		}
 		lay.body = g.body(f, lay, child, 0, 1, 2+c.Rng.Intn(4))
 		g.fs.main = child.path
